@@ -2388,13 +2388,15 @@ def compare_ac(tm1, tm2):
         x2, body2 = tm2.arg.dest_abs()
         return x1 == x2 and compare_ac(body1, body2)
     elif logic.is_if(tm1):
+        if not logic.is_if(tm2):
+            return False
         P1, x1, y1 = tm1.args
         P2, x2, y2 = tm2.args
         return compare_ac(P1, P2) and compare_ac(x1, x2) and compare_ac(y1, y2)
     elif tm1.is_plus():
-        return compare_ac(tm1.arg1, tm2.arg1) and compare_ac(tm1.arg, tm2.arg)
+        return tm2.is_plus() and compare_ac(tm1.arg1, tm2.arg1) and compare_ac(tm1.arg, tm2.arg)
     elif tm1.is_times():
-        return compare_ac(tm1.arg1, tm2.arg1) and compare_ac(tm1.arg, tm2.arg)
+        return tm2.is_times() and compare_ac(tm1.arg1, tm2.arg1) and compare_ac(tm1.arg, tm2.arg)
     else:
         return tm1 == tm2
 
